@@ -89,6 +89,10 @@ J gen(uint64_t seed, bool thorough) {
       ops.push(o2); sig += "S";
     }
   }
+  // a third of the plans add a restraint that collects thermodynamic-integration samples on the variables' own grid: its count grid
+  // must hold the same eligible samples as the histogram (not together with scaled state counts)
+  bool ti = !vector_mode && !scaled_once && r.chance(0.33);
+  sc["ti"] = ti; if (ti) sig += "/ti";
   sc["template"] = sig + (ec.binary_state ? "/bin" : "/txt");
   plan["scenario"] = sc;
   plan["ops"] = ops;
@@ -165,6 +169,11 @@ RunResult run(J const &plan) {
   hist += custom_grid;
   if (vector_mode) { hist += vec_grid; hist += "  gatherVectorColvars on\n"; if (sc.at("use_weights").as_bool()) { hist += "  weights"; for (double w : weights) hist += " " + num(w); hist += "\n"; } }
   hist += "}\n";
+  bool ti = sc.has("ti") && sc.at("ti").as_bool() && custom_grid.empty() && !vector_mode;
+  if (ti) {
+    std::string c; for (auto const &d : dims) c += " " + full(d.lower + 0.5 * (d.upper - d.lower));
+    hist += "harmonic {\n  name t\n  colvars " + names + "\n  centers" + c + "\n  forceConstant 0.01\n  writeTISamples on\n}\n";
+  }
   std::string conf = config + cvtext + hist;
   SimRun sim(1);
   std::unique_ptr<Engine> e(new Engine(ec));
@@ -174,7 +183,7 @@ RunResult run(J const &plan) {
   }
   // the library may have adjusted sizes: they must be what the configuration says
   std::map<std::vector<int>, double> model_w; double weight_in_range = 0;   // vector mode: weighted
-  std::map<std::vector<int>, long> model; long eligible_in_range = 0, on_edge = 0, out_of_range = 0, steps_compared = 0, restarts = 0;
+  std::map<std::vector<int>, long> model; long eligible_in_range = 0, on_edge = 0, out_of_range = 0, steps_compared = 0, restarts = 0, ti_checks = 0;
   bool first_of_instance = true; long last_step = -1;
   auto hook = [&](Engine *ep) {
     ep->after_step = [&, ep](long step) {
@@ -222,6 +231,22 @@ RunResult run(J const &plan) {
         } else
         if (data[a] != (double)mc) { std::string b; for (int q : ix) b += std::to_string(q) + " "; res.fail("histogram", data[a] > (double)mc ? "bin_overcounted" : "bin_undercounted", at + ": bin [" + b + "] holds " + fmt_double(data[a]) + ", " + std::to_string(mc) + " eligible samples fell into it"); return; }
         for (size_t i = nd; i-- > 0;) { if (++ix[i] < dims[i].n) break; ix[i] = 0; }
+      }
+      if (ti && !res.violation) {
+        // the count grid of the TI estimator (same grid, same eligible steps: each sample in exactly one bin, once)
+        std::string tst; ep->run_script({"cv", "bias", "t", "savetostring"}, &tst);
+        size_t hp = tst.find("\nhistogram"), sp = tst.find("system_forces");
+        if (hp != std::string::npos && sp != std::string::npos && sp > hp) {
+          std::istringstream tis(tst.substr(hp + 10, sp - hp - 10)); std::vector<double> tc; double tv; while (tis >> tv) tc.push_back(tv);
+          if (tc.size() != total) { res.fail("ti_samples", "grid_size", at + ": the TI count grid holds " + std::to_string(tc.size()) + " numbers, the variables' grid has " + std::to_string(total) + " bins"); return; }
+          std::vector<int> jx(nd, 0); double tsum = 0;
+          for (size_t a = 0; a < total; a++) {
+            auto it = model.find(jx); long mc = it == model.end() ? 0 : it->second; tsum += tc[a];
+            if (tc[a] != (double)mc) { std::string b; for (int q : jx) b += std::to_string(q) + " "; res.fail("ti_samples", tc[a] > (double)mc ? "bin_overcounted" : "bin_undercounted", at + ": TI count bin [" + b + "] holds " + fmt_double(tc[a]) + ", " + std::to_string(mc) + " eligible samples fell into it"); return; }
+            for (size_t i = nd; i-- > 0;) { if (++jx[i] < dims[i].n) break; jx[i] = 0; }
+          }
+          ti_checks++;
+        }
       }
       if (vector_mode ? sum != weight_in_range : sum != (double)eligible_in_range) { res.fail("histogram", "total_count", at + ": counts add up to " + fmt_double(sum) + ", " + std::to_string(eligible_in_range) + " in-range eligible samples so far"); return; }
       steps_compared++;
@@ -312,6 +337,7 @@ RunResult run(J const &plan) {
   res.counters["probe.samples_out_of_range"] += out_of_range;
   res.counters["probe.samples_exactly_on_a_bin_edge"] += on_edge;
   res.counters["probe.dimensions_with_observed_boundaries"] += edge_dims;
+  res.counters["probe.ti_count_grids_compared"] += ti_checks;
   res.counters["probe.restarts"] += restarts; res.counters["fault.stop_and_restart"] += restarts;
   res.counters["probe.file_bins_checked"] += file_bins;
   res.nontrivial = steps_compared > 0 && eligible_in_range > 0;
